@@ -134,6 +134,15 @@ pub fn extra_alphabet() -> Vec<Value> {
         json!({"k": "load", "docs": [{"name": "X2", "type": "dependency", "meta": {"attack": ["1234"]}, "matches": [["$a", ".x == '1'"]], "condition": "$a"}]}),
         json!({"k": "load", "docs": [{"name": "X3", "type": "detection", "meta": {"attack": ["T+1"]}, "matches": [["$a", ".x == '1'"]], "condition": "$a"}]}),
         json!({"k": "load", "docs": [{"name": "X4", "type": "filter", "meta": {"attack": ["t1234.001"], "tags": ["x"]}, "matches": [["$a", ".x == '1'"]], "condition": "$a"}]}),
+        // a duplicate in the middle of a text: the call stops there, what follows is not loaded
+        json!({"k": "load", "docs": [rule("K1", &[("$a", ".x == '1'")], None), rule("A", &[("$a", ".x == '9'")], None), rule("K2", &[("$a", ".x == '1'")], None), rule("K3", &[("$a", ".x == '1'")], None)]}),
+        json!({"k": "load", "docs": [rule("K4", &[("$a", ".x == '1'")], None), rule("K4", &[("$a", ".x == '2'")], None), rule("K5", &[("$a", ".x == '1'")], None)]}),
+        // an operand name without `$` next to regular ones, wherever it sorts
+        json!({"k": "load", "docs": [rule("B1", &[("$a", ".x == '1'"), ("#ip", ".y == '1'")], Some("$a"))]}),
+        json!({"k": "load", "docs": [rule("B2", &[("$a", ".x == '1'"), (" $ip", ".y == '1'")], Some("$a"))]}),
+        json!({"k": "load", "docs": [rule("B3", &[("$a", ".x == '1'"), ("", ".y == '1'")], None)]}),
+        json!({"k": "load", "docs": [rule("B4", &[("$a", ".x == '1'"), ("~ip", ".y == '1'"), ("$z", ".z == '1'")], Some("$a or $z"))]}),
+        json!({"k": "load", "docs": [rule("B5", &[("$a", ".x == '1'"), ("ip", ".y == '1'")], Some("$a"))]}),
         // non-ASCII text around a placeholder, with a template defined or not
         json!({"k": "load", "docs": [rule("NA", &[("$a", ".x == 'caf\u{e9}{{t}}cr\u{e8}me \u{65e5}\u{672c}'")], Some("$a"))]}),
         // rule names the `rule(..)` grammar cannot spell, and rules referring to them: the reference is malformed
